@@ -169,23 +169,15 @@ theorem compat_iff (n : Nat) (vals : List (VarValue Rat)) :
     vals.all (fun v => v.rows.length == n || v.rows.length == 1) = true ↔ Compat n (vals.map (·.rows.length)) := by
   simp [Compat]
 
-/-- **the getter of `Engine.output_values` as translated from the source = `Op.Engine.outputValues`** on the values the
-    output variables hold -/
-theorem code_outputValues (outs : List (OutVar Rat × VarValue Rat)) :
-    match outputValues (outs.map (·.2)) with
-    | .error e => Engine_output_values.run outs {} = .error e.toPy
-    | .ok a => ∃ σ, Engine_output_values.run outs {} = .ok σ ∧ σ.ret = some a := by
-  unfold Engine_output_values.run outputValues
-  have hA : List.map (fun (ov : OutVar Rat × VarValue Rat) => Py.EIO.atleast1d ov.2) outs
-      = (outs.map (·.2)).map (fun v => VarValue.vector v.rows) := by
-    simp only [List.map_map, Function.comp_def, atleast1d_eq]
-  rw [hA]
-  generalize outs.map (·.2) = vals
+/-- `np.broadcast_arrays` of 1-D arrays: every one of them has the batch length or a single row (stretched), or it
+    raises `ValueError` -/
+theorem broadcast_vectors (vals : List (VarValue Rat)) :
+    Py.EIO.broadcastArrays (vals.map (fun v => VarValue.vector v.rows)) =
+      if vals.all (fun v => v.rows.length == batchLength (vals.map (·.rows.length)) || v.rows.length == 1) then
+        .ok (vals.map (fun v => VarValue.vector (stretch (batchLength (vals.map (·.rows.length))) v.rows)))
+      else .error .value := by
   cases vals with
-  | nil =>
-    simp only [List.map_nil, Py.EIO.broadcastArrays, Py.EIO.allScalar, List.mapM_nil, Option.pure_def, Option.isSome_some, if_true,
-      bind, Except.bind, List.isEmpty_nil, Bool.not_true, Bool.false_eq_true, if_false, Py.EIO.npArray, List.all_nil]
-    exact ⟨_, rfl, rfl⟩
+  | nil => rfl
   | cons v vs =>
     have hl := lens_of_vectors (v :: vs)
     simp only [List.map_cons] at hl ⊢
@@ -194,48 +186,127 @@ theorem code_outputValues (outs : List (OutVar Rat × VarValue Rat)) :
     have hci := compat_iff n (v :: vs)
     simp only [List.map_cons] at hci
     by_cases hc : Compat n (v.rows.length :: vs.map (·.rows.length))
-    · have hall := hci.mpr hc
-      rw [if_pos hc, if_pos hall]
-      simp only [bind, Except.bind, List.map_cons, stretchTo_vector, List.map_map, Function.comp_def, List.isEmpty_cons,
-        Bool.not_false, if_true, Bool.false_eq_true, if_false, columnStack_cons, rows_vector, List.all_map]
-      have hlen : ∀ w ∈ v :: vs, (stretch n w.rows).length = n := fun w hw =>
-        stretch_length n w.rows (hc _ (List.mem_map_of_mem (f := fun (v : VarValue Rat) => v.rows.length) hw))
-      have h1 : (vs.all fun w => (stretch n w.rows).length == (stretch n v.rows).length) = true := by
-        rw [List.all_eq_true]
-        intro w hw
-        rw [hlen w (List.mem_cons_of_mem _ hw), hlen v List.mem_cons_self]
-        exact beq_self_eq_true n
-      rw [if_pos h1, hlen v List.mem_cons_self]
-      exact ⟨_, rfl, rfl⟩
+    · rw [if_pos hc, if_pos (hci.mpr hc)]
+      simp only [List.map_cons, stretchTo_vector, List.map_map, Function.comp_def]
     · have hall : ¬ ((v :: vs).all (fun v => v.rows.length == n || v.rows.length == 1) = true) := fun h => hc (hci.mp h)
       rw [if_neg hc, if_neg hall]
-      simp only [bind, Except.bind, ErrKind.toPy]
 
-/-- **the case F12 is about**: after a batch of `n` rows every output variable holds `n` rows or – without
-    activations – a single row; `output_values` then does not raise and is the 2-D array of `n` rows in which the
-    single rows are repeated -/
-theorem outputValues_batch (vals : List (VarValue Rat)) (n : Nat) (hne : vals ≠ [])
-    (hc : ∀ v ∈ vals, v.rows.length = n ∨ v.rows.length = 1) (hn : ∃ v ∈ vals, v.rows.length = n) :
-    outputValues vals = .ok (ofColumns n (vals.map (fun v => stretch n v.rows))) := by
-  have hcl : Compat n (vals.map (·.rows.length)) := fun l hl => by
+/-- `np.column_stack` of columns that were stretched to `n` rows -/
+theorem columnStack_stretched (n : Nat) (v : VarValue Rat) (vs : List (VarValue Rat))
+    (hc : ∀ w ∈ v :: vs, w.rows.length = n ∨ w.rows.length = 1) :
+    Py.EIO.columnStack ((v :: vs).map (fun w => VarValue.vector (stretch n w.rows)))
+      = .ok (ofColumns n ((v :: vs).map (fun w => stretch n w.rows))) := by
+  have hlen : ∀ w ∈ v :: vs, (stretch n w.rows).length = n := fun w hw => stretch_length n w.rows (hc w hw)
+  simp only [List.map_cons, columnStack_cons, rows_vector, List.all_map, List.map_map, Function.comp_def]
+  have h1 : (vs.all fun w => (stretch n w.rows).length == (stretch n v.rows).length) = true := by
+    rw [List.all_eq_true]
+    intro w hw
+    rw [hlen w (List.mem_cons_of_mem _ hw), hlen v List.mem_cons_self]
+    exact beq_self_eq_true n
+  rw [if_pos h1, hlen v List.mem_cons_self]
+
+/-- **the getter of `Engine.output_values` as translated from the source = `Op.Engine.outputValues`** on the values the
+    input variables and the output variables hold -/
+theorem code_outputValues (ins : List (InVar Rat × VarValue Rat)) (outs : List (OutVar Rat × VarValue Rat)) :
+    match outputValues (ins.map (·.2)) (outs.map (·.2)) with
+    | .error e => Engine_output_values.run ins outs {} = .error e.toPy
+    | .ok a => ∃ σ, Engine_output_values.run ins outs {} = .ok σ ∧ σ.ret = some a := by
+  unfold Engine_output_values.run outputValues
+  have hA : List.map (fun (v : Py.EIO.Variable × VarValue Rat) => Py.EIO.atleast1d v.2)
+        (ins.map Py.EIO.inVariable ++ outs.map Py.EIO.outVariable)
+      = (ins.map (·.2) ++ outs.map (·.2)).map (fun v => VarValue.vector v.rows) := by
+    simp only [List.map_append, List.map_map, Function.comp_def, atleast1d_eq, Py.EIO.inVariable, Py.EIO.outVariable]
+  have hL : (ins.map Py.EIO.inVariable).length = (ins.map (·.2)).length := by simp only [List.length_map]
+  simp only [hA, hL, broadcast_vectors]
+  generalize ins.map (·.2) = ivals
+  generalize outs.map (·.2) = ovals
+  set n := batchLength ((ivals ++ ovals).map (·.rows.length)) with hn
+  by_cases hall : (ivals ++ ovals).all (fun v => v.rows.length == n || v.rows.length == 1) = true
+  · rw [if_pos hall, if_pos hall]
+    have hd : List.drop ivals.length ((ivals ++ ovals).map (fun v => VarValue.vector (stretch n v.rows)))
+        = ovals.map (fun v => VarValue.vector (stretch n v.rows)) := by
+      rw [List.map_append, List.drop_append_of_le_length (by simp), List.drop_eq_nil_of_le (by simp)]
+      · rfl
+    simp only [bind, Except.bind, hd]
+    cases ovals with
+    | nil =>
+      simp only [List.map_nil, List.isEmpty_nil, Bool.not_true, Bool.false_eq_true, if_false, if_true, Py.EIO.npArray,
+        Py.EIO.allScalar, List.mapM_nil, Option.pure_def]
+      exact ⟨_, rfl, rfl⟩
+    | cons v vs =>
+      have hc : ∀ w ∈ v :: vs, w.rows.length = n ∨ w.rows.length = 1 := fun w hw => by
+        have := (List.all_eq_true.mp hall) w (List.mem_append_right _ hw)
+        simpa using this
+      have hcs := columnStack_stretched n v vs hc
+      simp only [List.map_cons] at hcs
+      simp only [List.map_cons, List.isEmpty_cons, Bool.not_false, if_true, Bool.false_eq_true, if_false, hcs]
+      exact ⟨_, rfl, rfl⟩
+  · rw [if_neg hall, if_neg hall]
+    simp only [bind, Except.bind, ErrKind.toPy]
+
+/-- the batch length of lengths that are all `n` or 1, when `n` is 1 or occurs among them -/
+theorem batchLength_eq (n : Nat) (ns : List Nat) (hc : ∀ l ∈ ns, l = n ∨ l = 1) (hn : n = 1 ∨ n ∈ ns) :
+    batchLength ns = n := by
+  by_cases h1 : n = 1
+  · subst h1
+    apply batchLength_ones
+    intro l hl
+    rcases hc l hl with h | h <;> exact h
+  · rcases hn with h | h
+    · exact absurd h h1
+    · exact batchLength_of_compat n h1 ns h hc
+
+/-- **the case F12 and F17 are about**: after a batch of `n` rows every input variable holds `n` rows (or a single
+    value given as a float), and every output variable holds `n` rows or – disabled, or without activations – a single
+    row.  When `n` is 1 or SOME value, of an input variable or of an output variable, has `n` rows, `output_values` does
+    not raise and is the 2-D array of `n` rows in which the single rows are repeated -/
+theorem outputValues_batch (ins outs : List (VarValue Rat)) (n : Nat) (hne : outs ≠ [])
+    (hc : ∀ v ∈ ins ++ outs, v.rows.length = n ∨ v.rows.length = 1)
+    (hn : n = 1 ∨ ∃ v ∈ ins ++ outs, v.rows.length = n) :
+    outputValues ins outs = .ok (ofColumns n (outs.map (fun v => stretch n v.rows))) := by
+  have hcl : Compat n ((ins ++ outs).map (·.rows.length)) := fun l hl => by
     obtain ⟨w, hw, rfl⟩ := List.mem_map.mp hl
     exact hc w hw
-  have hB : batchLength (vals.map (·.rows.length)) = n := by
-    by_cases h1 : n = 1
-    · subst h1
-      apply batchLength_ones
-      intro l hl
-      rcases hcl l hl with h | h <;> exact h
-    · obtain ⟨v, hv, hvn⟩ := hn
-      exact batchLength_of_compat n h1 _ (List.mem_map.mpr ⟨v, hv, hvn⟩) hcl
+  have hB : batchLength ((ins ++ outs).map (·.rows.length)) = n := by
+    apply batchLength_eq n _ hcl
+    rcases hn with h | ⟨v, hv, hvn⟩
+    · exact Or.inl h
+    · exact Or.inr (List.mem_map.mpr ⟨v, hv, hvn⟩)
   unfold outputValues
   simp only [hB]
-  have hall : vals.all (fun v => v.rows.length == n || v.rows.length == 1) = true := (compat_iff n vals).mpr hcl
-  have he : vals.isEmpty = false := by
-    cases vals with
+  have hall : (ins ++ outs).all (fun v => v.rows.length == n || v.rows.length == 1) = true :=
+    (compat_iff n (ins ++ outs)).mpr hcl
+  have he : outs.isEmpty = false := by
+    cases outs with
     | nil => exact absurd rfl hne
     | cons _ _ => rfl
   simp only [hall, if_true, he, Bool.false_eq_true, if_false]
+
+theorem stretch_single (n : Nat) (r : List (X Rat)) (h : r.length = 1) :
+    stretch n r = List.replicate n (r.headD .nan) := by
+  match r, h with
+  | [x], _ => rfl
+
+/-- **F17**: no output variable holds a value per row (all of them disabled, no rule block enabled, no rule concluding
+    them) while the input variables hold the `n` rows of the batch: `output_values` has `n` rows, each the single
+    values of the output variables.  (Before the repair it had ONE row, so `Engine.values` raised.) -/
+theorem outputValues_no_activations (ins outs : List (VarValue Rat)) (n : Nat) (hne : outs ≠ []) (hi : ins ≠ [])
+    (hins : ∀ v ∈ ins, v.rows.length = n) (houts : ∀ v ∈ outs, v.rows.length = 1) :
+    outputValues ins outs = .ok (ofColumns n (outs.map (fun v => List.replicate n (v.rows.headD .nan)))) := by
+  have h := outputValues_batch ins outs n hne
+    (fun v hv => by
+      rcases List.mem_append.mp hv with h | h
+      · exact Or.inl (hins v h)
+      · exact Or.inr (houts v h))
+    (by
+      cases ins with
+      | nil => exact absurd rfl hi
+      | cons v vs => exact Or.inr ⟨v, List.mem_append_left _ List.mem_cons_self, hins v List.mem_cons_self⟩)
+  rw [h]
+  congr 2
+  apply List.map_congr_left
+  intro v hv
+  exact stretch_single n v.rows (houts v hv)
 
 /-! ## `Engine.values` -/
 
@@ -254,7 +325,8 @@ theorem inputValues_shape (vals : List (VarValue Rat)) (a : NdArr Rat) (h : inpu
     · cases h; exact .matrix _ _
     · cases h
 
-theorem outputValues_shape (vals : List (VarValue Rat)) (a : NdArr Rat) (h : outputValues vals = .ok a) : GetterShape a := by
+theorem outputValues_shape (ins outs : List (VarValue Rat)) (a : NdArr Rat) (h : outputValues ins outs = .ok a) :
+    GetterShape a := by
   unfold outputValues at h
   simp only at h
   split at h
@@ -281,15 +353,34 @@ theorem code_values (ins : List (InVar Rat × VarValue Rat)) (outs : List (OutVa
   | error e => rw [hi] at Hi; simp only at Hi; simp only [Hi, bind, Except.bind]
   | ok a =>
     rw [hi] at Hi; obtain ⟨σi, ei, ri⟩ := Hi
-    have Ho := code_outputValues outs
-    cases ho : outputValues (outs.map (·.2)) with
+    have Ho := code_outputValues ins outs
+    cases ho : outputValues (ins.map (·.2)) (outs.map (·.2)) with
     | error e => rw [ho] at Ho; simp only at Ho; simp only [ei, ri, Ho, bind, Except.bind, Py.deref_some]
     | ok b =>
       rw [ho] at Ho; obtain ⟨σo, eo, ro⟩ := Ho
       simp only [ei, ri, eo, ro, bind, Except.bind, Py.deref_some,
-        hstack_eq a b (inputValues_shape _ _ hi) (outputValues_shape _ _ ho)]
+        hstack_eq a b (inputValues_shape _ _ hi) (outputValues_shape _ _ _ ho)]
       cases sideBySide a b with
       | error e => rfl
       | ok r => exact ⟨_, rfl, rfl⟩
+
+/-- F17 for `Engine.values`: with the `n` rows of the batch on every input variable and single values on every output
+    variable the two getters return `n` rows each, so `values` is their `n` rows side by side -/
+theorem allValues_no_activations (ins outs : List (VarValue Rat)) (n : Nat) (hne : outs ≠ []) (hi : ins ≠ [])
+    (hins : ∀ v ∈ ins, v.rows.length = n) (houts : ∀ v ∈ outs, v.rows.length = 1) :
+    ∃ rows, allValues ins outs = .ok (.matrix (ins.length + outs.length) rows) ∧ rows.length = n := by
+  unfold allValues
+  rw [outputValues_no_activations ins outs n hne hi hins houts]
+  cases ins with
+  | nil => exact absurd rfl hi
+  | cons v vs =>
+    have hv := hins v List.mem_cons_self
+    have hall : vs.all (fun w => w.rows.length == n) = true := by
+      rw [List.all_eq_true]
+      intro w hw
+      rw [hins w (List.mem_cons_of_mem _ hw)]
+      exact beq_self_eq_true n
+    simp only [inputValues, hv, hall, if_true, ofColumns, sideBySide, List.length_map, List.length_range]
+    exact ⟨_, rfl, by simp⟩
 
 end Op.Engine
